@@ -122,6 +122,13 @@ pub fn documents<I: Inputs>(vt: &'static Vt<I>, ctx: &Ctx) -> Vec<Doc> {
                             continue; // identical bytes to the wrapped form in JSON / MessagePack
                         }
                         if let Ok(bytes) = enc(f, &tree) {
+                            // RON's named form `Name(..)` of a newtype struct (what `struct_names(true)` emits and
+                            // what people write by hand): the deserializer compares the name with the one the
+                            // Deserialize impl passes to `deserialize_newtype_struct`
+                            if f == Fmt::Ron && wrapped && *p == Pos::Top && bytes.first() == Some(&b'(') {
+                                docs.push(Doc { fmt: f, pos: *p, bytes: [name.as_bytes(), &bytes].concat() });
+                                docs.push(Doc { fmt: f, pos: *p, bytes: [b"Other".as_slice(), &bytes].concat() });
+                            }
                             docs.push(Doc { fmt: f, pos: *p, bytes });
                         }
                     }
